@@ -256,18 +256,39 @@ def run_frontend_history(ctx, rng, idx):
     from RunFeemsSim.machinery_calculation import MachineryCalculation
     spec = plants.gen_electric_plant(rng, n_swb=int(rng.choice([1, 2])), with_pti=False, with_storage=False,
                                      source_kinds=("genset", "generator"))
-    if not any(c["kind"] == "drive" for c in spec["electric"]):
-        spec["electric"].append(plants.gen_serial_spec(rng, "drive", "drive_x", spec["electric"][0]["swb"], 800.0))
+    kind = str(rng.choice(["electric", "mech_elec"], p=[0.5, 0.5]))
+    if kind == "electric":
+        if not any(c["kind"] == "drive" for c in spec["electric"]):
+            spec["electric"].append(plants.gen_serial_spec(rng, "drive", "drive_x", spec["electric"][0]["swb"], 800.0))
+        total = sum(c["rated"] for c in spec["electric"] if c["kind"] in E.SOURCE_KINDS)
+    else:       # conventional vessel: main engines drive the propellers, the electric plant carries the hotel load
+        mech, _, ids = plants.gen_mech_components(rng, n_lines=int(rng.choice([1, 2])), force_pti=False)
+        spec = dict(spec, type="mech_elec", lines=ids)
+        spec["electric"] = [c for c in spec["electric"] if c["kind"] != "drive"]
+        if not any(c["kind"] == "other_load" for c in spec["electric"]):
+            spec["electric"].append({"kind": "other_load", "name": "load_x", "swb": spec["electric"][0]["swb"], "rated": 500.0, "curve": [0.97]})
+        if rng.random() < 0.6:       # constant-efficiency propellers map 0 kW to exactly 0 kW (an interpolated one to 1e-16)
+            for c in mech:
+                if c["kind"] == "mech_load":
+                    c["curve"] = [float(np.round(rng.uniform(0.9, 1.0), 3))]
+        spec["mechanical"] = mech
+        total = sum(c["rated"] for c in mech if c["kind"] == "main_engine")
     n_other = sum(1 for c in spec["electric"] if c["kind"] == "other_load")
-    total = sum(c["rated"] for c in spec["electric"] if c["kind"] in E.SOURCE_KINDS)
+    etotal = sum(c["rated"] for c in spec["electric"] if c["kind"] in E.SOURCE_KINDS)
     profiles = []
     for _ in range(int(rng.integers(2, 5))):
-        n = int(rng.integers(1, 6))
-        profiles.append({"p": [float(np.round(rng.uniform(0, 0.5) * total, 1)) for _ in range(n)],
+        n = int(rng.integers(1, 6)) if (not profiles or rng.random() < 0.5) else len(profiles[-1]["p"])     # often the same length again
+        profiles.append({"p": [0.0 if rng.random() < 0.15 else float(np.round(rng.uniform(0, 0.5) * total, 1)) for _ in range(n)],
                          "dt": [float(rng.choice([60.0, 600.0, 3600.0])) for _ in range(n)],
-                         "aux": float(np.round(rng.uniform(0, 0.15) * total, 1)) if n_other else 0.0})
+                         "aux": float(np.round(rng.uniform(0.01, 0.15) * etotal, 1)) if n_other else 0.0})
+    if rng.random() < 0.5 and len(profiles) >= 2:      # a quay sample in one run, load at the same place of the next run of the same length
+        n0 = len(profiles[0]["p"])
+        j = int(rng.integers(n0))
+        profiles[0]["p"][j] = 0.0
+        profiles[1]["p"] = [float(np.round(rng.uniform(0.05, 0.5) * total, 1)) for _ in range(n0)]
+        profiles[1]["dt"] = [float(rng.choice([60.0, 600.0, 3600.0])) for _ in range(n0)]
     where = {"case": {"kind": "frontend", "spec": spec, "profiles": profiles}}
-    ctx.count("plant", "frontend")
+    ctx.count("plant", "frontend-" + kind)
     try:
         plant = plants.Plant(spec)
         mc = MachineryCalculation(feems_system=plant.system)
@@ -288,12 +309,14 @@ def run_frontend_history(ctx, rng, idx):
                 ctx.count("rejected_both", core.error_class(e))
             continue
         r2 = calc(MachineryCalculation(feems_system=plants.Plant(spec).system))
-        o1, o2 = R.observe_result(r1), R.observe_result(r2)
-        if not all(np.isfinite(o1["ext"])):
-            continue
-        bad = [f for f in c19.equiv(o1, o2) if f != "detail"]
-        if bad:
-            ctx.fail("predicate", "trace-of-earlier-calculation-in-front-end", f"profile {k}: {bad}: {[o1[b] for b in bad]} vs {[o2[b] for b in bad]}", where)
+        from .c16 import res_obs
+        for side, o1 in res_obs(r1).items():
+            o2 = res_obs(r2)[side]
+            if not all(np.isfinite(o1["ext"])):
+                continue
+            bad = [f for f in c19.equiv(o1, o2) if f != "detail"]
+            if bad:
+                ctx.fail("predicate", "trace-of-earlier-calculation-in-front-end", f"profile {k} ({side}): {bad}: {[o1[b] for b in bad]} vs {[o2[b] for b in bad]}", where)
     ctx.case_done(signature=("frontend", json.dumps([c["kind"] for c in spec["electric"]]), len(profiles)))
 
 
@@ -315,7 +338,7 @@ def run(ctx):
         ok = run_history(ctx, h)
         sig = (h["kind"], json.dumps([(c["kind"]) for c in h["spec"].get("electric", []) + h["spec"].get("mechanical", [])]), tuple(c["n"] for c in h["calcs"]))
         ctx.case_done(signature=sig if ok else None, sample={"kind": h["kind"], "series_lengths": [c["n"] for c in h["calcs"]], "queries": h["query_between"]} if ci in (ncorp, ncorp + 1) else None)
-    for i in range(ctx.n(20, 400)):
+    for i in range(ctx.n(30, 400)):
         run_frontend_history(ctx, ctx.rng, i)
     ctx.extra["corpus_cases"] = ncorp
 
